@@ -59,7 +59,7 @@ W_COLLISION = {"a": ["d", [[40, ["i", 1]]]], "b": ["l", [["l", [["s", 40], ["i",
 
 def unit_canon(ctx):
     rng = ctx.rng
-    n = 30000 if ctx.thorough else 4000
+    n = 20000 if ctx.thorough else 4000
     vals = [G.rand_value(rng) for _ in range(n)]
     # deeper, wider values
     for _ in range(n // 4):
@@ -205,7 +205,7 @@ def impl_matches(sf, stored, desired, ff, fo):
 
 def unit_fuzzy(ctx):
     rng = ctx.rng
-    n = 40000 if ctx.thorough else 5000
+    n = 20000 if ctx.thorough else 5000
     sf = strax.DataDirectory(os.path.join(TMP, "fz"))
     cases = []
     for _ in range(n):
@@ -335,7 +335,7 @@ def keys_for_job(job, shuffle):
 
 def unit_determinism(ctx):
     rng = ctx.rng
-    n = 400 if ctx.thorough else 60
+    n = 250 if ctx.thorough else 60
     jobs = [make_job(rng) for _ in range(n)]
     base = [keys_for_job(j, False) for j in jobs]
     # the model's keys for the same settings
@@ -424,7 +424,7 @@ def real_keys(classes, cfg, dts):
 
 def unit_sensitivity(ctx):
     rng = ctx.rng
-    n = 300 if ctx.thorough else 50
+    n = 200 if ctx.thorough else 50
     dist = {"option_changes": 0, "untracked_option_changes": 0, "version_changes": 0, "class_name_changes": 0,
             "keys_changed": 0, "keys_unchanged": 0, "skipped_conflicting_defaults": 0}
     ncase = 0
